@@ -566,7 +566,7 @@ func (nl *NodeList) Equal(nl2 *NodeList) bool {
 	r2 := slices.Clone(nl2.RootElements)
 	sort.Strings(r1)
 	sort.Strings(r2)
-	if !reflect.DeepEqual(r1, r2) {
+	if !slices.Equal(r1, r2) {
 		return false
 	}
 
